@@ -19,8 +19,13 @@ IntLike  == IntTags \cup CodeTags            \* every tag whose representative i
 StdClass == [c_m32700 |-> "ParseError", c_m32600 |-> "InvalidRequestError",
              c_m32601 |-> "MethodNotFoundError", c_m32602 |-> "InvalidParamsError",
              c_m32603 |-> "InternalError", c_m32000 |-> "ServerError",
-             c_2001 |-> "VerifCustomError", i0 |-> "VerifZeroError"]       \* user classes registered for 2001 and for code 0
-ClassOf(code, base) == IF code \in DOMAIN StdClass THEN StdClass[code] ELSE base
+             c_2001 |-> "VerifCustomError", i0 |-> "VerifZeroError",       \* user classes registered for 2001 and for code 0
+             i1 |-> "VerifScopedChild"]                                    \* ... and (a subclass of a scoping base) for code 1
+\* A base class may bring its own resolution (the documented recipe: override get_error_cls to look among the base's own
+\* subclasses only).  "VerifScopedBase" does; its subclass "VerifScopedChild" claims code 1 (inside that scope and, like
+\* every class that names a code, in the global registry).
+ClassOf(code, base) == IF base = "VerifScopedBase" THEN (IF code = "i1" THEN "VerifScopedChild" ELSE "VerifScopedBase")
+                       ELSE IF code \in DOMAIN StdClass THEN StdClass[code] ELSE base
 
 AbsentErr == [shape |-> Absent, code |-> NA, message |-> NA, data |-> NA]
 ScalarErr(t) == [shape |-> t, code |-> NA, message |-> NA, data |-> NA]
@@ -157,7 +162,7 @@ InitRt(k, m, b)    == kind = k /\ base = b /\ msg = m /\ wire = NA /\ pc = "buil
                       /\ out = NoOut /\ wire2 = NA
 
 Init == \/ \E w \in ReqDocs       : InitParse("p_req", w, "JsonRpcError")
-        \/ \E w \in ErrDocs, b \in Bases   : InitParse("p_err", w, b)
+        \/ \E w \in ErrDocs, b \in Bases \cup {"VerifScopedBase"} : InitParse("p_err", w, b)
         \/ \E w \in RespDocs, b \in Bases  : InitParse("p_resp", w, b)
         \/ \E w \in BatchReqDocs  : InitParse("p_breq", w, "JsonRpcError")
         \/ \E w \in BatchRespDocs, b \in Bases : InitParse("p_bresp", w, b)
